@@ -1531,6 +1531,8 @@ class Exec(object):
         if isinstance(v, SStruct):
             if name in v.fields:
                 return v.fields[name]
+            if isinstance(name, int) and str(name) in v.fields:      # tuple struct field .0 / .1
+                return v.fields[str(name)]
             self.unsupported(line, "struct %s has no field %s" % (v.name, name))
         if isinstance(v, tuple) and isinstance(name, int):
             return v[name]
@@ -1656,6 +1658,39 @@ class Exec(object):
             return self.call_closure(f, args, line)
         segs = callee[1]
         name = segs[-1]
+        if len(segs) >= 2 and segs[-2] == "mem" and name in ("replace", "take", "swap"):
+            # core::mem::{replace, take, swap} on places written `&mut <place>`
+            def place(a):
+                if a[0] == "un" and a[1] == "&mut":
+                    return a[2]
+                self.unsupported(line, "mem::%s on an argument that is not `&mut <place>`" % name)
+            self.hint = None
+            p0 = place(argexprs[0])
+            old_v = self.eval(p0, env)
+            if isinstance(old_v, ElemRef):
+                old_v = old_v.get()
+            if name == "replace":
+                self.assign(p0, "=", self.eval(argexprs[1], env), env, line)
+                return old_v
+            if name == "take":
+                if isinstance(old_v, list):
+                    new_v = RList([])
+                elif is_felt(old_v):
+                    new_v = F(0)
+                elif is_int(old_v):
+                    new_v = 0
+                elif isinstance(old_v, ResultV) and old_v.kind in ("Some", "None"):
+                    new_v = ResultV("None")
+                else:
+                    self.unsupported(line, "mem::take of %r (Default not modelled)" % (type(old_v).__name__,))
+                keep = deep_copy(old_v) if isinstance(old_v, list) else old_v
+                self.assign(p0, "=", new_v, env, line)
+                return keep
+            p1 = place(argexprs[1])
+            other = self.eval(p1, env)
+            self.assign(p0, "=", other, env, line)
+            self.assign(p1, "=", old_v, env, line)
+            return ()
         hint = self.hint
         args = []
         for a in argexprs:
@@ -2281,6 +2316,10 @@ class Exec(object):
                 acc = r.value
             if v:
                 return ResultV(r.kind, acc)
+            from symex import closure_result_kind
+            k_ = closure_result_kind(args[1])
+            if k_ is not None:
+                return ResultV(k_, acc)
             h_ = self.hint or ""
             if "Option" in h_ or "Result" in h_:
                 return ResultV("Some" if "Option" in h_ else "Ok", acc)
